@@ -10,6 +10,7 @@ import subprocess
 import json
 from concurrent.futures import ThreadPoolExecutor
 from fractions import Fraction
+from decimal import Decimal
 import vlib
 
 MANIFEST = dict(
@@ -28,8 +29,8 @@ MANIFEST = dict(
          "compared value by value with the TLC-emitted exact rationals at the printed precision.",
     note="Trusted: TLC, the lattice argument (positions k/8 nm, bin layouts k/32 nm or rad: every edge decision "
          "is exact or far from an edge), the brackets 103993/33102 < pi < 355/113, Python's Fraction/float "
-         "conversion, the XML/gro/dump writers of the check. Not covered: dihedrals, triclinic boxes with tilted c, force "
-         "histograms, bonded interactions inside IMC groups, mapping (--cg; see C01), wildcard types.")
+         "conversion, the XML/gro/dump writers of the check. Not covered: triclinic boxes with tilted c, force "
+         "histograms, dS rows of bonded members of IMC groups, mapping (--cg; see C01), overlapping wildcard selections, --begin.")
 
 PI = math.pi
 INPUT_FILES = {"topol.xml", "settings.xml", "traj.gro", "traj.dump", "stdout.txt"}
@@ -42,11 +43,14 @@ INPUT_FILES = {"topol.xml", "settings.xml", "traj.gro", "traj.dump", "stdout.txt
 NT_CYCLE = [1, 2, 3]
 
 
-def q2real(v):
-    return repr(v / 32.0)
+def q2real(v, den=4):
+    """v q-units (8*den per nm or rad) as an exact decimal string"""
+    d = Decimal(v) / Decimal(8 * den)
+    t = format(d, "f")
+    return t.rstrip("0").rstrip(".") if "." in t else t
 
 
-def write_inputs(run, d, use_dump):
+def write_inputs(run, d, use_dump, nbsearch=None):
     mols = run["mols"]
     with open(os.path.join(d, "topol.xml"), "w") as f:
         f.write("<topology>\n <molecules>\n")
@@ -65,7 +69,10 @@ def write_inputs(run, d, use_dump):
         f.write("</topology>\n")
     with open(os.path.join(d, "settings.xml"), "w") as f:
         f.write("<cg>\n")
+        if nbsearch:
+            f.write(" <nbsearch>%s</nbsearch>\n" % nbsearch)
         for it in run["inter"]:
+            den = it["den"]
             mx = it["mq"] + (it["n"] - 1) * it["sq"]
             dec = it["mq"] + (it["decoy"] - 1) * it["sq"]
             grp = "<inverse><imc><group>%s</group></imc></inverse>" % it["group"]
@@ -77,14 +84,14 @@ def write_inputs(run, d, use_dump):
                     f.write("<threebody>1</threebody><cut>%s</cut>" % q2real(it["cutq"]))
                 if run["intra"]:
                     f.write("<min>%s</min><max>%s</max><max_intra>%s</max_intra><step>%s</step>" % (
-                        q2real(it["mq"]), q2real(dec), q2real(mx), q2real(it["sq"])))
+                        q2real(it["mq"], den), q2real(dec, den), q2real(mx, den), q2real(it["sq"], den)))
                 else:
                     f.write("<min>%s</min><max>%s</max><max_intra>%s</max_intra><step>%s</step>" % (
-                        q2real(it["mq"]), q2real(mx), q2real(dec), q2real(it["sq"])))
+                        q2real(it["mq"], den), q2real(mx, den), q2real(dec, den), q2real(it["sq"], den)))
                 f.write(grp + "</non-bonded>\n")
             else:
                 f.write(" <bonded><name>%s</name><min>%s</min><max>%s</max><step>%s</step>%s</bonded>\n" % (
-                    it["name"], q2real(it["mq"]), q2real(mx), q2real(it["sq"]), grp))
+                    it["name"], q2real(it["mq"], den), q2real(mx, den), q2real(it["sq"], den), grp))
         f.write("</cg>\n")
     if use_dump:
         with open(os.path.join(d, "traj.dump"), "w") as f:
@@ -110,12 +117,12 @@ def write_inputs(run, d, use_dump):
     tg = []
     if run["doimc"]:
         for it in run["inter"]:
-            if it["kind"] == "nb" and it["group"] != "none":
+            if it["group"] != "none":        # csg_stat loads a target for every member of an IMC group
                 nm = it["name"] + ".dist.tgt"
                 tg.append(nm)
                 with open(os.path.join(d, nm), "w") as f:
                     for k in range(it["n"]):
-                        f.write("%s %s i\n" % (q2real(it["mq"] + k * it["sq"]), repr(it["tgt"][k] / 8.0)))
+                        f.write("%s %s i\n" % (q2real(it["mq"] + k * it["sq"], it["den"]), repr(it["tgt"][k] / 8.0)))
     return tg
 
 
@@ -132,6 +139,8 @@ def command(exe, run, use_dump, nt, omit_nframes):
         cmd += ["--first-frame", str(run["first"])]
     if not omit_nframes:
         cmd += ["--nframes", str(run["nframes"])]
+    if run.get("ext", "dist.new") != "dist.new":
+        cmd += ["--ext", run["ext"]]
     return cmd
 
 
@@ -184,8 +193,10 @@ def execute(exe, base, idx, run):
     use_dump = (not run["tie"]) and run["kind"] in (1, 2, 5) and idx % 3 == 2
     nt = run.get("nt", NT_CYCLE[idx % len(NT_CYCLE)])
     nfirst = max(run["first"], 1)
-    omit = (run["nframes"] == len(run["frames"]) - nfirst + 1) and idx % 2 == 1
-    tgts = write_inputs(run, d, use_dump)
+    omit = run.get("err", False) or ((run["nframes"] == len(run["frames"]) - nfirst + 1) and idx % 2 == 1)
+    # cg.nbsearch: absent (grid), "grid" or "simple" - the stated result does not depend on it
+    nbsearch = run.get("nbsearch", (None, "grid", "simple", None, "simple")[idx % 5])
+    tgts = write_inputs(run, d, use_dump, nbsearch)
     cmd = command(exe, run, use_dump, nt, omit)
     try:
         p = subprocess.run(cmd, cwd=d, stdout=subprocess.PIPE, stderr=subprocess.STDOUT, text=True, timeout=120)
@@ -194,6 +205,7 @@ def execute(exe, base, idx, run):
         rc, out = -999, "TIMEOUT"
     with open(os.path.join(d, "stdout.txt"), "w") as f:
         f.write(out)
+    run["_choice"] = dict(nt=nt, nbsearch=nbsearch, dump=use_dump)
     return d, cmd, rc, out, set(tgts)
 
 
@@ -206,6 +218,18 @@ def compare(ctx, run, d, rc, out, tgts):
     bad = []
     if rc == -999:
         raise vlib.InfraError("csg_stat timed out in %s" % d)
+    if run.get("err", False):
+        # --first-frame beyond the trajectory: documented error, non-zero exit status, nothing written
+        ctx.count()
+        present = set(os.listdir(d)) - INPUT_FILES - tgts
+        if rc == 0:
+            bad.append(("run:first-frame-beyond-end:exit0", "csg_stat exit status 0 although the first frame %d lies "
+                        "beyond the trajectory (%d frames)" % (run["first"], len(run["frames"]))))
+        if present:
+            bad.append(("run:first-frame-beyond-end:files", "files written by a failed run: %s" % sorted(present)))
+        if rc != 0 and "too short" not in out:
+            bad.append(("run:first-frame-beyond-end:message", "unexpected error text: %s" % out[-300:]))
+        return bad
     if rc != 0:
         return [("run:%s:exit" % ("block" if run["block"] else "final"),
                  "csg_stat exit status %s: %s" % (rc, out[-400:]))]
@@ -240,9 +264,12 @@ def compare(ctx, run, d, rc, out, tgts):
                 ctx.count()
                 x = float(rows[k][0])
                 y = float(rows[k][1])
-                if not near(x, f["x"][k] / 32.0, rel):
-                    bad.append((key + ":x", "%s row %d: x=%r expected %r" % (nm, k, x, f["x"][k] / 32.0)))
+                ex = f["x"][k] / float(f["xd"][k])
+                if not near(x, ex, rel) and abs(x - ex) > 1e-12:
+                    bad.append((key + ":x", "%s row %d: x=%r expected %r" % (nm, k, x, ex)))
                     break
+                if kind == "imc" and not f["cmp"][k]:
+                    continue      # dS of a bonded group member: not defined by the statement
                 if kind == "S":
                     ev, mag = f["num"][k] / float(prod(f["den"])), 0.0
                     ok = abs(y - ev) <= 1e-7 * abs(ev) + 1e-9
@@ -290,12 +317,15 @@ def slim(run, cmd, idx):
     r["cmd"] = cmd[1:]
     r["idx"] = idx
     r["nt"] = int(cmd[cmd.index("--nt") + 1])
+    ch = r.pop("_choice", None)
+    if ch:
+        r["nbsearch"] = ch["nbsearch"]
     return r
 
 
 def run(ctx):
     global NT_CYCLE
-    NT_CYCLE = [1, 2, 3] if ctx.quick else [1, 2, 3, 4, 5, 8]
+    NT_CYCLE = [1, 2, 3, 1, 2, 3, 6] if ctx.quick else [1, 2, 3, 4, 5, 8, 2]
     bindir = vlib.ensure_build(["csg_stat"])
     exe = os.path.join(bindir, "csg_stat")
     quick = ctx.quick
@@ -333,10 +363,10 @@ def run(ctx):
         for s0 in range(seed0, seed0 + nseed, chunk):
             ns = min(chunk, seed0 + nseed - s0)
             res = vlib.tlc("statimc", "MCStat", cfg="MCStat.cfg", timeout=2400,
-                           env={"C04_KINDS": 123456 if s0 == seed0 else 12346, "C04_SEED0": s0, "C04_NSEED": ns,
+                           env={"C04_KINDS": 1234567 if s0 == seed0 else 123467, "C04_SEED0": s0, "C04_NSEED": ns,
                                 "C04_WIDE": 0 if quick else 1})
             vlib.tlc_must_hold(res, "StatImc: ScenarioOK (incl. vacuity guards), RunningMean, GmcSymmetric, BlockIndependent, FinalIsFresh")
-            ctx.add_tlc("MCStat seeds %d..%d" % (s0, s0 + ns - 1), res, constants={"Blocks": [0, 1, 2, 3] + ([] if quick else [4]), "Firsts": [0, 2] if quick else [0, 1, 2, 3]})
+            ctx.add_tlc("MCStat seeds %d..%d" % (s0, s0 + ns - 1), res, constants={"Blocks": [0, 1, 2, 3] + ([] if quick else [4]), "Firsts": [0, 2, 9] if quick else [0, 1, 2, 3, 9]})
             runs += res.records
         if not runs:
             raise vlib.InfraError("TLC exported no runs")
@@ -349,7 +379,7 @@ def run(ctx):
     with ThreadPoolExecutor(max_workers=vlib.NCPU) as ex:
         outs = list(ex.map(work, list(enumerate(runs))))
 
-    kinds = {1: "same", 2: "two", 3: "mol", 4: "3b", 5: "probe", 6: "tric"}
+    kinds = {1: "same", 2: "two", 3: "mol", 4: "3b", 5: "probe", 6: "tric", 7: "chain"}
     for i, (r, (d, cmd, rc, out, tgts)) in enumerate(zip(runs, outs)):
         ctx.traces += 1
         if r["nframes"] > 1 or r["block"]:
@@ -380,3 +410,27 @@ def run(ctx):
                         "frame_histograms": r["fh"], "files": [f["name"] for f in r["files"]]})
     shutil.rmtree(base, ignore_errors=True)
     ctx.exhaustive = False
+    # ---- vacuity guard (engine side): every layer of the check really occurred in this tier
+    def kinds_of(r):
+        return {it["kind"] for it in r["inter"]}
+    layers = {
+        "threads_exceed_frames": sum(1 for r in runs if not r.get("err") and r["_choice"]["nt"] > r["nframes"]),
+        "nbsearch_simple_with_3body": sum(1 for r in runs if r["_choice"]["nbsearch"] == "simple" and "3b" in kinds_of(r)),
+        "nbsearch_simple": sum(1 for r in runs if r["_choice"]["nbsearch"] == "simple"),
+        "lammps_dump": sum(1 for r in runs if r["_choice"]["dump"]),
+        "ext_option": sum(1 for r in runs if r.get("ext", "dist.new") != "dist.new" and r["files"]),
+        "first_frame_beyond_end": sum(1 for r in runs if r.get("err")),
+        "dihedral": sum(1 for r in runs if "dihedral" in kinds_of(r) and r["files"]),
+        "wildcard_types": sum(1 for r in runs if any("*" in t for it in r["inter"] for t in it["t"]) and r["files"]),
+        "decimal_step": sum(1 for r in runs if any(it["den"] != 4 for it in r["inter"]) and r["files"]),
+        "bonded_in_imc_group": sum(1 for r in runs if r["doimc"] and r["files"] and
+                                   any(it["kind"] == "bond" and it["group"] != "none" for it in r["inter"])),
+        "triclinic_box": sum(1 for r in runs if any(len(fr["box"]) == 6 for fr in r["frames"]) and r["files"]),
+        "include_intra": sum(1 for r in runs if r["intra"] and r["files"]),
+        "block_output": sum(1 for r in runs if r["block"] and r["files"]),
+    }
+    ctx.extra["layer_runs"] = layers
+    if not getattr(ctx, "replay", None):
+        empty = [k for k, v in layers.items() if v == 0]
+        if empty:
+            raise vlib.InfraError("vacuous check: no run exercised %s" % ", ".join(empty))
